@@ -99,37 +99,44 @@ def parseSection (rest : Str) : Except Err Str :=
       let sect := r.dropLast
       if sect.isEmpty then .error .emptySectionName else .ok sect
 
+/-- The value from the first byte of its spelling on: trailing blanks removed (the first byte is
+    kept), one pair of outer quotes stripped when the closing quote exists. -/
+def valueOf (d2 : Str) : Option Str × Bool :=
+  match d2 with
+  | [] => (some [], false)
+  | c :: cs =>
+    if c == QUOTE then
+      -- `kept`: the text after the opening quote without trailing blanks (first byte kept)
+      match cs with
+      | [] => (some [QUOTE], true)
+      | k :: ks =>
+        let kept := k :: dropLastWhile isSpace ks
+        if kept.getLast? == some QUOTE then (some kept.dropLast, true)
+        else (some (QUOTE :: kept), true)
+    else (some (c :: dropLastWhile isSpace cs), false)
+
+/-- What follows the key and the byte after it, up to the first byte of the value: blanks, and the
+    delimiter if the byte after the key was not one.  Errors: MISSING_DELIMITER. -/
+def skipDelim (delim : Str) (delimSeen : Bool) (data : Str) : Except Err Str :=
+  let d1 := data.dropWhile isSpace
+  if !hasWsp delim && !delimSeen then
+    match d1 with
+    | [] => .error .missingDelimiter
+    | c :: cs => if delim.contains c then .ok (cs.dropWhile isSpace) else .error .missingDelimiter
+  else if mixedDelim delim && !delimSeen then
+    match d1 with
+    | [] => .ok d1
+    | c :: cs => if delim.contains c then .ok (cs.dropWhile isSpace) else .ok d1
+  else .ok d1
+
 /-- The value text of a `key delimiter value` line; `data` is what follows the key and the
     byte after it.  `none` = no value at all (NULL).  Errors: MISSING_DELIMITER. -/
 def parseValue (delim : Str) (delimSeen : Bool) (data : Str) : Except Err (Option Str × Bool) :=
   if data.isEmpty then .ok (none, false)
   else
-    let d1 := data.dropWhile isSpace
-    let after : Except Err Str :=
-      if !hasWsp delim && !delimSeen then
-        match d1 with
-        | [] => .error .missingDelimiter
-        | c :: cs => if delim.contains c then .ok (cs.dropWhile isSpace) else .error .missingDelimiter
-      else if mixedDelim delim && !delimSeen then
-        match d1 with
-        | [] => .ok d1
-        | c :: cs => if delim.contains c then .ok (cs.dropWhile isSpace) else .ok d1
-      else .ok d1
-    match after with
+    match skipDelim delim delimSeen data with
     | .error e => .error e
-    | .ok d2 =>
-      match d2 with
-      | [] => .ok (some [], false)
-      | c :: cs =>
-        if c == QUOTE then
-          -- `kept`: the text after the opening quote without trailing blanks (first byte kept)
-          match cs with
-          | [] => .ok (some [QUOTE], true)
-          | k :: ks =>
-            let kept := k :: dropLastWhile isSpace ks
-            if kept.getLast? == some QUOTE then .ok (some kept.dropLast, true)
-            else .ok (some (QUOTE :: kept), true)
-        else .ok (some (c :: dropLastWhile isSpace cs), false)
+    | .ok d2 => .ok (valueOf d2)
 
 /-- The original line as appended by a continuation: cut at the *first* occurrence of every
     comment character (not for python style), one trailing newline removed. -/
